@@ -42,7 +42,7 @@ def run(res, prop, tier, wd_name):
                     timeout=3000, stall=300)
     info = json.loads(open(os.path.join(wd, "grammar.out")).readline())
     lines = open(tpath).read().splitlines(keepends=True)
-    if len(lines) != len(cases) and not info.get("hangs"):
+    if (info.get("cases") != len(cases) or len(lines) != info.get("events")) and not info.get("hangs"):
         raise vlib.ToolError("grammar driver lost cases")
     shards = 6
     files = []
@@ -69,13 +69,15 @@ def run(res, prop, tier, wd_name):
             refused += 1
         if e["kind"] != "context" or e["ctx"]["rdlen"] != "exact":
             res.nontrivial.add("g:" + e["case"])
-    if must < 1000 or accepted == 0 or refused == 0 or len(types) < 35:
+    # (a run cut short by hanging decoders is judged on what it saw)
+    if not info.get("hangs") and (must < 1000 or accepted == 0 or refused == 0 or len(types) < 35):
         raise vlib.ToolError(f"vacuous grammar run: must={must} accepted={accepted} refused={refused} types={len(types)}")
     res.traces += len(lines)
     res.evaluations += len(lines)
     res.extra["grammar"] = {"cases": len(cases), "well_formed_in_context": must, "record_types": len(types),
                             "accepted_by_Message_from_vec": accepted, "refused": refused,
-                            "kinds": {k: sum(1 for c in cases if c["kind"] == k) for k in ("single", "context", "pair", "tlv")}}
+                            "kinds": {k: sum(1 for c in cases if c["kind"] == k) for k in ("single", "context", "pair", "tlv", "trunc")},
+                            "events": len(lines)}
     own = OWN[prop]
     other = 0
     for m in mism:
